@@ -683,7 +683,7 @@ def connect_coding_graph(observed_length, vertices, threshold, verbose=False):
                 if len(useless_vertices) == len(cycle):
                     for useless_vertex in useless_vertices:
                         accessor[useless_vertex] = -1
-                        pairs = [(i, useless_vertex) for i in obtain_formers(useless_vertex, 10)]
+                        pairs = [(i, useless_vertex) for i in obtain_formers(useless_vertex, observed_length)]
                         while len(pairs) > 0:
                             new_pairs = []
                             for former_index, latter_index in pairs:
@@ -691,7 +691,7 @@ def connect_coding_graph(observed_length, vertices, threshold, verbose=False):
                                 accessor[former_index, latter_index % 4] = -1
                                 current = len(where(accessor[former_index] >= 0)[0])
                                 if previous > current == 0:
-                                    new_pairs += [(i, former_index) for i in obtain_formers(former_index, 10)]
+                                    new_pairs += [(i, former_index) for i in obtain_formers(former_index, observed_length)]
                             pairs = new_pairs
                 else:
                     break
